@@ -40,6 +40,12 @@ ASSUMPTIONS = ['JSON numbers are finite; float values are multiples of 1/64 (exa
                'dates use ASCII digits (strptime also accepts other Unicode decimal digits)',
                'an uncaught exception of the validator counts as "not reported valid"']
 
+# what may follow the seconds / the fraction: accepted by %z (first line) and corrupt (the rest)
+OFFSETS = ('+00:00', '+0000', 'Z', '+05:30', '-05:30', '+0530', '+23:59', '-23:59', '+05:30:15', '+053015', '-00:00',
+           '+05:30:15.123456', '+05:30:15.5',
+           '+00', '+05', '+5', '+0', '+', '+25:00', '+24:00', '-24:00', '+00:60', '+05:3', '+05:', '+05:30x', ' +05:30',
+           'z', 'UTC', '+05:30:60', '+05:30:15.1234567', '+05:30:15.', '+0530:15', '+05:3015', '++05:30', '+05:30:',
+           '+05:30:1', '+05:30 ', 'Z0', '+05-30')
 KEYS = ['format', 'format_url', 'type', 'rows', 'columns', 'shape', 'data', 'matrix_type', 'matrix_element_type',
         'generated_by', 'id', 'date']
 H_ATTRS = ['format-url', 'format-version', 'type', 'shape', 'nnz', 'generated-by', 'id', 'creation-date']
@@ -100,7 +106,9 @@ def mutations(nr, nc):
                 '2020-01-01T25:00', '2020-01-01T10:00:61', '2020-01-01T10:00:00.1234567', '2020-01-01t10:00',
                 '2020-01-01 10:00', ' 2020-01-01', '0000-01-01', '2020-01-02T03:04:05+00:00', '2020-01- 5',
                 '2020-01-01T1:2:3.4', '20200101', '2020-01-01T', '2020-01-01T10', '2020-01-01T10:60', '99999-01-01',
-                ['2020-01-01']):
+                ['2020-01-01']) + tuple('2024-02-29T13:14:15' + frac + off for frac in ('', '.25') for off in OFFSETS) + \
+            ('2024-02-29T13:14+00:00', '2024-02-29+00:00', '2024-02-29T13:14:15.1234567+00:00', '2024-02-29T13:14:1+01:00',
+             '2024-02-29T13:14:15.+01:00', '2024-02-30T13:14:15+01:00'):
         m.append(['set', 'date', val])
     for val in ('1.0.0', 'Biological Observation Matrix 2.1.0', 'biological observation matrix 1.0.0', '', 5, None):
         m.append(['set', 'format', val])
@@ -193,6 +201,9 @@ def h5_mutations(nr, nc):
           ['aset', 'nnz', 'int', -1], ['aset', 'nnz', 'int', 99], ['aset', 'nnz', 'flt', 2.0],
           ['aset', 'generated-by', 's', ''], ['aset', 'creation-date', 's', 'yesterday'],
           ['aset', 'creation-date', 's', '2020-02-30'], ['aset', 'creation-date', 's', '2020-01-02'],
+          ['aset', 'creation-date', 's', '2024-02-29T13:14:15+05:30'], ['aset', 'creation-date', 's', '2024-02-29T13:14:15.25Z'],
+          ['aset', 'creation-date', 's', '2024-02-29T13:14:15+25:00'], ['aset', 'creation-date', 's', '2024-02-29T13:14:15+0'],
+          ['aset', 'creation-date', 's', '2024-02-29T13:14:15+05:30x'], ['aset', 'creation-date', 's', '2024-02-29T13:14+05:30'],
           ['aset', 'format-url', 's', 'http://biom-format.org/'], ['aset', 'format-url', 's', ''],
           ['aset', 'format-version', 'ints', [2, 0]], ['aset', 'format-version', 'ints', [3, 0]],
           ['aset', 'format-version', 'ints', [1, 0]], ['aset', 'format-version', 'ints', [2, 1, 0]],
@@ -672,7 +683,8 @@ def run_h5(c):
             t.to_hdf5(h, c.get('generated_by', 'gen'), creation_date=dt)
         t = load_table(first)
         dt = None
-    with h5py.File(path, 'w') as h:
+    ub = {'userblock_size': c['userblock']} if c.get('userblock') else {}
+    with h5py.File(path, 'w', **ub) as h:
         try:
             t.to_hdf5(h, c.get('generated_by', 'gen'), creation_date=dt)
         except Exception as e:  # noqa
@@ -940,7 +952,7 @@ def oracle(c, obs):
         fails.append('unrecognised report line %s' % [r for r in obs['report'] if r[0] == 999][:1])
     if c['kind'] == 'json':
         doc = extra
-        if not c['muts'] and c.get('fv') in JSON_OK and not final_tz(c):
+        if not c['muts'] and c.get('fv') in JSON_OK:
             if not valid:
                 fails.append('library-written JSON file (%s form, --format-version %r) of a vocabulary-type table is not '
                              'reported valid: %s %s' % (c.get('writer', 'returned string'), c.get('fv'), obs['valid'],
@@ -966,7 +978,7 @@ def oracle(c, obs):
         return fails[:3]
     tree, facts = extra
     fv = c.get('fv')
-    if not c['muts'] and fv in H5_21 and not valid and not final_tz(c):
+    if not c['muts'] and fv in H5_21 and not valid:
         fails.append('library-written HDF5 file of a vocabulary-type table is not reported valid with '
                      '--format-version %r: %s %s' % (fv, obs['valid'], obs['report']))
     if valid:
@@ -1035,6 +1047,11 @@ def gen(rng, tier):
             yield {'kind': 'json', 'spec': b, 'muts': [], 'date': dform}
             yield {'kind': 'json', 'spec': b, 'muts': [], 'writer': 'direct_io', 'date': dform}
             yield {'kind': 'h5', 'spec': b, 'muts': [], 'date': dform}
+        for ub in (512, 1024):
+            # an HDF5 file may start with a user block (F46)
+            yield {'kind': 'h5', 'spec': b, 'muts': [], 'userblock': ub}
+            yield {'kind': 'h5', 'spec': b, 'muts': [], 'userblock': ub, 'fv': '2.1.0'}
+            yield {'kind': 'h5', 'spec': b, 'muts': [['ids', 'sample', 'blank']], 'userblock': ub}
         for gmd in GROUP_MD:
             # group metadata on either / both axes, first and second generation files, the table's own create_date
             for how in ('ctor', 'add'):
@@ -1077,7 +1094,8 @@ def gen(rng, tier):
         yield {'kind': 'json', 'spec': s, 'muts': [], 'writer': 'direct_io', 'generated_by': rng.choice(['gen', 'x y']),
                'date': rand_date(rng)}
         yield {'kind': 'h5', 'spec': s, 'muts': [], 'date': rand_date(rng), 'grp_md': rng.choice(GROUP_MD),
-               'grp_how': rng.choice(['ctor', 'add']), 'generation': rng.choice([1, 2]), 'own_date': rng.choice(OWN_DATES)}
+               'grp_how': rng.choice(['ctor', 'add']), 'generation': rng.choice([1, 2]), 'own_date': rng.choice(OWN_DATES),
+               'userblock': rng.choice([0, 0, 0, 512, 1024, 4096])}
         yield {'kind': 'json', 'spec': s, 'muts': [], 'date': rand_date(rng), 'generation': rng.choice([1, 2]),
                'own_date': rng.choice(OWN_DATES), 'writer': rng.choice(['direct_io', 'string'])}
         yield {'kind': 'h5', 'spec': s, 'muts': [], 'fv': rng.choice(SPELLINGS)}
@@ -1132,6 +1150,8 @@ def classify(c):
             tags.append('h5-group-metadata:%s:%s' % ('+'.join(sorted(c['grp_md'])), c.get('grp_how', 'ctor')))
         if c.get('generation', 1) == 2:
             tags.append('%s-second-generation' % c['kind'])
+        if c.get('userblock'):
+            tags.append('h5-userblock:%d' % c['userblock'])
         if c.get('own_date'):
             tags.append('%s-own-create_date:%s' % (c['kind'], c['own_date'][0] if c['own_date'][0] == 'dt' else repr(c['own_date'][1])))
     if not c['muts'] and 'date' in c:
